@@ -173,10 +173,19 @@ def part_cleanlogs(chk, n):
             files |= set(rng.sample(["notes.txt", "README", ".hidden", "weird.name.log"], 2))
             for fn in files:
                 open(os.path.join(logs, fn), "w").close()
-            clean = rng.random() < 0.75
-            with open(os.path.join(proj, ".gwfconf.json"), "w") as f:
-                json.dump({"backend": "slurm", "clean_logs": clean}, f)
+            clean = rng.random() < 0.65
             cl = cluster.FakeCluster(os.path.join(root, "cl"))
+            if rng.random() < 0.5:
+                # the way a user switches it: `gwf config set clean_logs yes|no|true|false`
+                with open(os.path.join(proj, ".gwfconf.json"), "w") as f:
+                    json.dump({"backend": "slurm"}, f)
+                spelling = rng.choice(["yes", "true"] if clean else ["no", "false"])
+                c0, _, e0 = cluster.run_gwf(["config", "set", "clean_logs", spelling], proj, cl)
+                if c0 != 0:
+                    raise common.Broken("gwf config set clean_logs failed: " + e0[-200:])
+            else:
+                with open(os.path.join(proj, ".gwfconf.json"), "w") as f:
+                    json.dump({"backend": "slurm", "clean_logs": clean}, f)
             dry = rng.random() < 0.2
             code, out, err = cluster.run_gwf(["run"] + (["--dry-run"] if dry else []), proj, cl)
             after = set(os.listdir(logs))
